@@ -135,6 +135,7 @@ type exec struct {
 	log  core.LogHasher
 	step int
 	stop bool
+	enumerated int // sink-failure enumerations done in this run
 }
 
 func (x *exec) viol(prop, sig, detail string) {
@@ -977,8 +978,15 @@ func (x *exec) run(ops []Op, upto int, override *Op) *simNode {
 // EVERY k = 1..(number of nodes the prune must drop) with the sink failing at its
 // k-th call, under the narrowly relaxed oracle of doUpdate.
 func (x *exec) sinkEnumerate(ops []Op, i int) {
+	// forks re-execute the prefix without the per-step audits (only the update matters there)
+	if x.enumerated >= 3 {
+		return
+	}
+	x.enumerated++
+	quiet := *x.cfg
+	quiet.AuditEvery = false
 	// how many nodes would be dropped? ask a throw-away model run
-	probe := &exec{cfg: x.cfg, opt: x.opt, res: &core.Result{}}
+	probe := &exec{cfg: &quiet, opt: x.opt, res: &core.Result{}}
 	pn := probe.run(ops, i, nil)
 	if pn == nil || len(probe.res.Violations) > 0 {
 		return
@@ -992,7 +1000,7 @@ func (x *exec) sinkEnumerate(ops []Op, i int) {
 		return
 	}
 	for k := 1; k <= len(dropped); k++ {
-		fork := &exec{cfg: x.cfg, opt: x.opt, res: &core.Result{}}
+		fork := &exec{cfg: &quiet, opt: x.opt, res: &core.Result{}}
 		o := op
 		o.SinkFail = k
 		o.SinkAll = false
